@@ -684,11 +684,14 @@ impl ZiPatch {
                     // Currently, IgnoreMissing and IgnoreOldMismatch is not used in XIVQuickLauncher either. This stays as an intentional NOP.
                     debug!("PATCH: NOP ApplyOption");
                 }
-                ChunkType::AddDirectory(_) => {
-                    debug!("PATCH: NOP AddDirectory");
+                ChunkType::AddDirectory(directory) => {
+                    fs::create_dir_all(format!("{}/{}", data_dir, directory.name))?;
                 }
-                ChunkType::DeleteDirectory(_) => {
-                    debug!("PATCH: NOP DeleteDirectory");
+                ChunkType::DeleteDirectory(directory) => {
+                    let directory_path = format!("{}/{}", data_dir, directory.name);
+                    if fs::remove_dir(directory_path.as_str()).is_err() {
+                        warn!("Failed to remove {directory_path}");
+                    }
                 }
                 ChunkType::EndOfFile => {
                     return Ok(());
